@@ -177,7 +177,8 @@ def execute(case):
     faults = {"clock_jump": 0, "boundary": 0, "backstep": 0, "skew": 0, "tick": 0}
     probes = {"omitted_ts_requests": 0, "explicit_ts_requests": 0, "streams_across_clock_events": 0,
               "midnight_crossed_between_stream_steps": 0, "model_differs_from_today": 0,
-              }
+              "same_instant_other_zone": 0, "alias_in_excluded_window": 0,
+              "aware_ts_in_dst_zone": 0, "aware_ts_next_to_dst_switch": 0}
     n_eval = 0
     t_min = t_max = wall.t
     seen_abs = {}
@@ -192,11 +193,23 @@ def execute(case):
         if ev.get("client") is None:
             return None
         t_ = wall.t + timedelta(seconds=case["clients"][ev["client"]])
+        if ev.get("tzrule"):
+            # an aware reference time in a zone WITH daylight-saving rules (POSIX rule string,
+            # no zone database needed): the offset changes from one day to the next
+            from dateutil import tz as _dtz
+            return t_.replace(tzinfo=_dtz.tzstr(ev["tzrule"]))
         if ev.get("tz") is not None:
             # the client hands over an AWARE datetime: what counts is its own wall-clock
             # reading (its fields), not the UTC instant
             from datetime import timezone
-            t_ = t_.replace(tzinfo=timezone(timedelta(minutes=ev["tz"])))
+            if ev.get("alias_tz") is not None:
+                # the same INSTANT as the request before, handed over by a client in another
+                # zone (aware datetimes compare and hash by instant, the rules read the fields)
+                t_ = t_.replace(tzinfo=timezone(timedelta(minutes=ev["alias_tz"]))) \
+                    .astimezone(timezone(timedelta(minutes=ev["tz"])))
+                probes["same_instant_other_zone"] += 1
+            else:
+                t_ = t_.replace(tzinfo=timezone(timedelta(minutes=ev["tz"])))
         return t_
 
     saved_dt = mod.datetime
@@ -261,6 +274,11 @@ def execute(case):
                     instant = reads[0][1]
                 else:
                     probes["explicit_ts_requests"] += 1
+                    if ev.get("tzrule"):
+                        probes["aware_ts_in_dst_zone"] += 1
+                        if ts_arg.utcoffset() != (ts_arg + timedelta(days=1)).utcoffset() or \
+                                ts_arg.utcoffset() != (ts_arg - timedelta(days=1)).utcoffset():
+                            probes["aware_ts_next_to_dst_switch"] += 1
                     if case["clients"][ev["client"]]:
                         faults["skew"] += 1
                     if reads:
@@ -268,6 +286,12 @@ def execute(case):
                              "event %d %r: a call with explicit reference time %s read the host "
                              "clock (%s)" % (i, form["s"], ts_arg, reads[0][1]))
                     instant = ts_arg.replace(tzinfo=None)
+                if ev.get("alias_tz") is not None and (
+                        (form.get("two_digit") and not _two_digit_ok(form, instant))
+                        or (prop == "C06" and _military_excluded(form, instant))):
+                    # the other zone's calendar fields fall into an excluded window (appendix A)
+                    probes["alias_in_excluded_window"] += 1
+                    continue
                 t_min, t_max = min(t_min, instant), max(t_max, instant)
                 obs.append([i, form["s"], fmt_ts(instant), got if exc is None else exc])
                 want = expected(lib, form, instant, latent)
@@ -384,7 +408,40 @@ def _boundary_instant(rng, lo=2016, hi=2043):
         if rng.random() < 0.3:
             t = t.replace(month=rng.choice([2, 3]), day=rng.choice([1, 28]))
         return t
-    return workload.ref_time(rng, lo, hi)
+    t = workload.ref_time(rng, lo, hi)
+    if rng.random() < 0.08:
+        # the eve / the day / the morrow of a daylight-saving switch somewhere
+        d = rng.choice(rng.choice(list(_dst_switches(t.year).values())))
+        t = t.replace(month=d.month, day=d.day) + timedelta(days=rng.choice([-1, -1, 0, 1]))
+    return t
+
+
+DST_RULES = {"eu": "CET-1CEST,M3.5.0,M10.5.0/3", "us": "EST5EDT,M3.2.0,M11.1.0",
+             "au": "AEST-10AEDT,M10.1.0,M4.1.0/3"}
+
+
+def _nth_sunday(y, m, n):
+    """n = 1, 2 ... or 5 for the last Sunday of the month"""
+    if n == 5:
+        d = datetime(y + (m == 12), m % 12 + 1, 1) - timedelta(days=1)
+        return d - timedelta(days=(d.weekday() + 1) % 7)
+    d = datetime(y, m, 1)
+    return d + timedelta(days=(6 - d.weekday()) % 7 + 7 * (n - 1))
+
+
+def _dst_switches(y):
+    return {"eu": [_nth_sunday(y, 3, 5), _nth_sunday(y, 10, 5)],
+            "us": [_nth_sunday(y, 3, 2), _nth_sunday(y, 11, 1)],
+            "au": [_nth_sunday(y, 10, 1), _nth_sunday(y, 4, 1)]}
+
+
+def _dst_rule_near(t):
+    """the rule string of a zone that switches its offset within a day of *t*, if any"""
+    for k, days in _dst_switches(t.year).items():
+        for d in days:
+            if abs((t.replace(hour=0, minute=0, second=0, microsecond=0) - d).days) <= 1:
+                return DST_RULES[k]
+    return None
 
 
 def _clock_instant(rng, h, mi, lo=2016, hi=2043):
@@ -431,12 +488,13 @@ def _two_digit_ok(form, ts):
 
 
 def _military_excluded(form, ts):
-    """four-digit hhmm equal to the (near) current year is read as a year (rules.py:417-438)"""
+    """four-digit hhmm equal to the current year, or to the year three calendar months ahead
+    (i.e. next year from 1 October on), is read as a year (rules.py _is_valid_military_time;
+    DESIGN appendix A). The exclusion is exactly that window, not a day more."""
     if form["t"] != "clock:{hh}{mm}":
         return False
     v = form["p"][0] * 100 + form["p"][1]
-    near = ts + timedelta(days=93)
-    return v in (ts.year, near.year, (ts + timedelta(days=89)).year)
+    return v == ts.year or (ts.month >= 10 and v == ts.year + 1)
 
 
 def _session(prop, rng, n_req):
@@ -491,6 +549,14 @@ def _session(prop, rng, n_req):
                     nt = nt.replace(year=yr - 1, month=rng.choice([10, 11, 12]), day=min(nt.day, 28))
                 else:
                     nt = nt.replace(year=yr, day=min(nt.day, 28))
+            elif f["t"] == "clock:{hh}{mm}" and f["p"][0] == 20 and rng.random() < 0.6:
+                # bare hhmm next to the window in which it is read as a year: the last days of
+                # September of the year before, the first days of the year after
+                yr = 2000 + f["p"][1]
+                mo, da, yy = rng.choice([(9, 28, yr - 1), (9, 29, yr - 1), (9, 30, yr - 1),
+                                         (9, 30, yr - 1), (1, 1, yr + 1), (1, 2, yr + 1),
+                                         (6, 30, yr - 1), (12, 31, yr - 2)])
+                nt = nt.replace(year=yy, month=mo, day=da)
             evs.append({"ev": "set", "to": fmt_ts(nt), "boundary": True})
             t = nt
         elif r < 0.35:
@@ -535,9 +601,19 @@ def _session(prop, rng, n_req):
             h += 1
         else:
             pe = {"ev": "parse", "form": f, "client": client, "latent": latent}
-            if client is not None and rng.random() < 0.15:
-                pe["tz"] = rng.choice([120, -480, 330, 60, 0, 720])
+            near = _dst_rule_near(inst) if client is not None else None
+            if near and rng.random() < 0.6:
+                pe["tzrule"] = near
+            elif client is not None and rng.random() < 0.2:
+                if rng.random() < 0.2:
+                    pe["tzrule"] = rng.choice(sorted(DST_RULES.values()))
+                else:
+                    pe["tz"] = rng.choice([120, -480, 330, 60, 0, 720])
             evs.append(pe)
+            if pe.get("tz") is not None and rng.random() < 0.5:
+                evs.append(dict(pe, alias_tz=pe["tz"],
+                                tz=rng.choice([z for z in (120, -480, 330, 60, 0, 720, -180)
+                                               if z != pe["tz"]])))
             if rng.random() < 0.15:
                 # the same question again a little earlier / later on the same day (an answer
                 # remembered per text or per reference *day* is wrong as soon as the hour matters)
